@@ -8,6 +8,23 @@ use crate::util::*;
 use crate::{Args, emit_viol_case, stat_props};
 use lean_string::LeanString;
 
+/// `--mod n --rem i`: keep only every n-th outer case (used to shard slow flavours)
+pub struct Shard {
+    n: u64,
+    i: u64,
+    k: u64,
+}
+impl Shard {
+    pub fn new(a: &Args) -> Shard {
+        Shard { n: a.num("mod", 1).max(1), i: a.num("rem", 0), k: 0 }
+    }
+    pub fn take(&mut self) -> bool {
+        let r = self.k % self.n == self.i % self.n;
+        self.k += 1;
+        r
+    }
+}
+
 pub struct Runner {
     pub ex: Explorer,
     pub pool: Pool,
@@ -121,7 +138,7 @@ impl Runner {
             .raw("samples", jarr(self.samples.iter().map(|s| jstr(s))))
             .raw("counters", counters)
             .n("cases", self.cases);
-        if let Some(scope) = exhaustive {
+        if let (Some(scope), true) = (exhaustive, a.num("mod", 1) <= 1) {
             ec = ec.b("exhaustive", true).s("exhaustive_scope", scope);
         }
         let infoj = format!("{{{}}}", info.iter().map(|(k, v)| format!("{}:{}", jstr(k), v)).collect::<Vec<_>>().join(","));
@@ -404,6 +421,7 @@ pub fn engine_sizes(a: &Args) {
     let offset = (seed as usize) % stride.max(1);
     let boundary_only = a.flag("boundary-only");
     let mut n_cases = 0u64;
+    let mut shard = Shard::new(a);
     for (vi, &v0) in table.iter().enumerate() {
         if vi % stride != offset {
             continue;
@@ -412,6 +430,9 @@ pub fn engine_sizes(a: &Args) {
             continue;
         }
         for state in ALL_STATES {
+            if !shard.take() {
+                continue;
+            }
             for entry in 0..9 {
                 for variant in 0..2 {
                     let case = format!("v={v0} variant={variant} state={state:?} entry={entry}");
@@ -499,8 +520,12 @@ pub fn engine_indices(a: &Args) {
         TState::HeapSharedShorter,
     ];
     let mut calls = 0u64;
+    let mut shard = Shard::new(a);
     for (ti, text) in texts.iter().enumerate() {
         for (si, &state) in states.iter().enumerate() {
+            if !shard.take() {
+                continue;
+            }
             if sample_pct < 100 && r.below(100) >= sample_pct {
                 continue;
             }
@@ -575,9 +600,13 @@ pub fn engine_panics(a: &Args) {
     let mut rn = Runner::new("panics", seed);
     let rounds = a.num("rounds", 3);
     let mut with_heap = 0u64;
+    let mut shard = Shard::new(a);
     for round in 0..rounds {
         for state in ALL_STATES {
             for opk in 0..(3 + 2 * ITEM_KINDS.len()) {
+                if !shard.take() {
+                    continue;
+                }
                 let nchars = [0usize, 1, 3, 7, 12, 17, 25, 40][r.below(8)];
                 let text = {
                     let mut s = String::new();
@@ -655,9 +684,13 @@ pub fn engine_clones(a: &Args) {
     let max_len = a.num("max-big-len", 16 << 20) as usize;
     let mut lens: Vec<usize> = (0..=40).collect();
     lens.extend([63, 64, 65, 1 << 10, 1 << 16, 1 << 20, 16 << 20].iter().filter(|&&l| l <= max_len));
-    let counts: &[usize] = if a.flag("miri") || a.num("miri", 0) == 1 { &[1, 2, 20] } else { &[1, 2, 100, 10000] };
+    let counts: &[usize] = if a.num("miri", 0) == 1 { &[1, 2, 20] } else { &[1, 2, 100, 10000] };
+    let mut shard = Shard::new(a);
     for &len in &lens {
         for state in [TState::Inline, TState::Inline16, TState::Static, TState::HeapUnique, TState::HeapSpare, TState::HeapSharedShorter] {
+            if !shard.take() {
+                continue;
+            }
             let case = format!("len={len} state={state:?}");
             rn.announce(a, &case);
             let text = gen_text(&mut r, len.min(64));
@@ -762,9 +795,13 @@ pub fn engine_construct(a: &Args) {
             Op::ToLean { t, v: Tls::Str(s.clone()), try_: true },
         ]
     };
+    let mut shard = Shard::new(a);
     // (a) all lengths x routes
     for len in 0..=40usize {
         for _ in 0..reps {
+            if !shard.take() {
+                continue;
+            }
             let s = gen_text(&mut r, len);
             let case = format!("len={len}");
             rn.announce(a, &case);
@@ -783,6 +820,9 @@ pub fn engine_construct(a: &Args) {
     // (b) 16-byte texts with every legal final byte
     let mut finals = 0u64;
     for last in 0u32..=0x7F {
+        if !shard.take() {
+            continue;
+        }
         let mut s = gen_text(&mut r, 15);
         s.push(char::from_u32(last).unwrap());
         finals += 1;
@@ -791,6 +831,9 @@ pub fn engine_construct(a: &Args) {
     for cont in 0x80u8..=0xBF {
         // last continuation byte of a 2-, 3- and 4-byte char
         for width in [2usize, 3, 4] {
+            if !shard.take() {
+                continue;
+            }
             let c = match width {
                 2 => char::from_u32(((0xC3u32 & 0x1F) << 6) | (cont as u32 & 0x3F)),
                 3 => char::from_u32(((0xE2u32 & 0x0F) << 12) | (0x82 & 0x3F) << 6 | (cont as u32 & 0x3F)),
@@ -810,7 +853,7 @@ pub fn engine_construct(a: &Args) {
     rn.count("final_bytes_covered", finals);
     // (c) chars, bools, integers by digit count
     let case = "scalars".to_string();
-    for c in W1.iter().chain(W2).chain(W3).chain(W4) {
+    for c in W1.iter().chain(W2).chain(W3).chain(W4).filter(|_| a.num("mod", 1) <= 1) {
         rn.apply(Op::FromChar { t: 0, c: *c }, &case);
         rn.apply(Op::ToLean { t: 1, v: Tls::Char(*c), try_: false }, &case);
     }
@@ -818,6 +861,9 @@ pub fn engine_construct(a: &Args) {
     rn.apply(Op::ToLean { t: 0, v: Tls::Bool(false), try_: true }, &case);
     rn.end_case(&case);
     for digits in 1..=39u32 {
+        if !shard.take() {
+            continue;
+        }
         for _ in 0..reps * 3 {
             let lo: i128 = if digits == 1 { 0 } else { 10i128.pow(digits - 1) };
             let hi: i128 = if digits >= 39 { i128::MAX } else { 10i128.pow(digits) - 1 };
@@ -909,6 +955,7 @@ pub fn engine_growth(a: &Args) {
     let mut r = Rng::new(seed);
     let mut rn = Runner::new("growth", seed);
     let max_n = a.num("max-n", 4_000_000) as usize;
+    let mut shard = Shard::new(a);
     // (a) growth events with chosen (L, a)
     let ls: Vec<usize> = vec![0, 1, 7, 15, 16, 17, 18, 31, 32, 33, 63, 64, 100, 101, 255, 1000, 4097, 65536, 1 << 20]
         .into_iter()
@@ -916,6 +963,9 @@ pub fn engine_growth(a: &Args) {
         .collect();
     for &l in &ls {
         for state in [TState::Inline, TState::Inline16, TState::Static, TState::HeapUnique, TState::HeapSpare, TState::HeapShared, TState::HeapSharedShorter] {
+            if !shard.take() {
+                continue;
+            }
             let adds = [1usize, 2, 3, 4, (l / 2).saturating_sub(1), l / 2, l / 2 + 1, l, 2 * l];
             for &add in &adds {
                 if add == 0 || add > (1 << 20) {
@@ -1026,10 +1076,14 @@ pub fn engine_shrink(a: &Args) {
     let table = size_table();
     let lens = [0usize, 1, 5, 15, 16, 17, 18, 30, 100, 333];
     let caps_rel = [0usize, 1, 2, 10, 20, 100, 900];
+    let mut shard = Shard::new(a);
     for &len in &lens {
         for &extra in &caps_rel {
             let cap = len + extra;
             for sharing in 0..4 {
+                if !shard.take() {
+                    continue;
+                }
                 let mut ms: Vec<usize> = vec![0, len.saturating_sub(1), len, len + 1, cap.saturating_sub(1), cap, cap + 1, 16, 17, (len + cap) / 2];
                 for _ in 0..4 {
                     ms.push(*r.pick(&table));
